@@ -19,6 +19,14 @@ pub fn allow_deprecated_for_struct(item: &ItemStruct) -> (r: TokenStream) ensure
 pub fn allow_deprecated_for_enum(item: &ItemEnum) -> (r: TokenStream) ensures uses(&r) == Set::<int>::empty() { unimplemented!() }
 impl ToTok for ImplGenerics { open spec fn tok_uses(&self) -> Set<int> { Set::empty() } }
 impl ToTok for TypeGenerics { open spec fn tok_uses(&self) -> Set<int> { Set::empty() } }
+// syn: `TypeGenerics::as_turbofish()` (`::<T, U>`): the item's own parameters, no user expression inside
+#[verifier::external_body]
+pub struct Turbofish { _p: u8 }
+impl ToTok for Turbofish { open spec fn tok_uses(&self) -> Set<int> { Set::empty() } }
+impl TypeGenerics {
+    #[verifier::external_body]
+    pub fn as_turbofish(&self) -> Turbofish { unimplemented!() }
+}
 pub uninterp spec fn seq_uses<T>(v: Seq<T>) -> Set<int>;
 impl<T: ToTok> ToTok for Vec<T> { open spec fn tok_uses(&self) -> Set<int> { seq_uses(self@) } }
 impl Generics {
